@@ -269,10 +269,16 @@ fn judge(env: &Env, fx: &Fixture, case: &Case, info: &mut CaseInfo) -> Verdict {
         Ok(b) => b,
         Err(why) => return Verdict::Dropped(why),
     };
-    // the fixture must have produced exactly this expiry
-    let installed = history.read().current().and_then(|s| s.refresh()).map(|t| t.timestamp());
-    if installed != expiry_abs {
-        return Verdict::Dropped(format!("fixture_expiry_mismatch"));
+    // The fixture must produce exactly this expiry; that is established on a twin report turned into
+    // a snapshot directly, not on what the history holds afterwards: a history that keeps the
+    // previous snapshot (with its later expiry) when the payload did not change is the property's
+    // business, not a harness problem.
+    if let Some(e) = expiry_abs {
+        let (twin, mut tm) = fx.report(&config, Time::new(chrono::DateTime::from_timestamp(e, 0).expect("timestamp")));
+        let got = twin.into_snapshot(&LocalExceptions::empty(), &mut tm).refresh().map(|t| t.timestamp());
+        if got != expiry_abs {
+            return Verdict::Dropped("fixture_expiry_mismatch".to_string());
+        }
     }
     oracle(case.refresh, case.min_refresh, expiry_abs.map(|e| e as f64), class, wait, t0, t1)
 }
